@@ -83,6 +83,25 @@ class StlDiscreteTimeOfflineAstVisitor(StlAstVisitor):
         return sample_return
 
 
+    def visitNegate(self, node, *args, **kwargs):
+        sample = self.visit(node.children[0], *args, **kwargs)
+
+        sample_return = [-i for i in sample]
+        return sample_return
+
+    def visitLn(self, node, *args, **kwargs):
+        sample = self.visit(node.children[0], *args, **kwargs)
+
+        sample_return = [math.log(i) for i in sample]
+        return sample_return
+
+    def visitLog(self, node, *args, **kwargs):
+        sample_1 = self.visit(node.children[0], *args, **kwargs)
+        sample_2 = self.visit(node.children[1], *args, **kwargs)
+
+        sample_return = [math.log(l, r) for l, r in zip(sample_1, sample_2)]
+        return sample_return
+
     def visitAddition(self, node, *args, **kwargs):
         sample_left  = self.visit(node.children[0], *args, **kwargs)
         sample_right = self.visit(node.children[1], *args, **kwargs)
